@@ -230,10 +230,34 @@ func driveC08(o opts) error {
 				return err
 			}
 			rc := tc.Table(T)
-			for _, u := range uuids {
-				if err := rc.Create(u, db.Make(T, u, rows[u]), false); err != nil {
+			for i, u := range uuids {
+				if ci%2 == 0 {
+					if err := rc.Create(u, db.Make(T, u, rows[u]), false); err != nil {
+						return err
+					}
+					continue
+				}
+				// every other case the rows reach their contents by updates: created with other (unique) values in the
+				// columns that schema and client indexes are made of, then one update that moves all of them at once
+				// (the name to another temporary value), then one that moves the name alone
+				v0, v1 := map[string]val.Val{}, map[string]val.Val{}
+				for k, v := range rows[u] {
+					v0[k], v1[k] = v, v
+				}
+				v0["name"], v1["name"] = val.VA(val.Str(fmt.Sprintf("tmp0-%d", i))), val.VA(val.Str(fmt.Sprintf("tmp1-%d", i)))
+				v0["n"], v0["tag"] = val.VA(val.Int(int64(1000000+i))), val.VA(val.Str(fmt.Sprintf("tmptag-%d", i)))
+				v0["u"], v0["os"] = val.VA(val.Uuid(gen.UUIDn(900000+i))), val.VSome(val.Str(fmt.Sprintf("tmpos-%d", i)))
+				if err := rc.Create(u, db.Make(T, u, v0), false); err != nil {
 					return err
 				}
+				for _, v := range []map[string]val.Val{v1, rows[u]} {
+					if _, err := rc.Update(u, db.Make(T, u, v), false); err != nil {
+						return err
+					}
+				}
+			}
+			if ci%2 == 1 {
+				w.Count("contents reached by updates")
 			}
 			var resTerms []string
 			var results [][]string
